@@ -130,9 +130,10 @@ def execute(case, ctx):
     seen_xyz = set()
     with rb.quiet():
         for p in case["particles"]:
-            key = (p["x"], p["y"], p["z"])
+            # coincident positions are a documented restriction of the tree; opposite faces / corners are the same point of a periodic box
+            key = tuple(round(((p[a] + Lh / 2.) % Lh) / Lh, 12) % 1.0 for a, Lh in (("x", L[0]), ("y", L[1]), ("z", L[2])))
             if key in seen_xyz:
-                continue            # coincident positions are a documented restriction of the tree
+                continue
             seen_xyz.add(key)
             try:
                 sim.add(m=p["m"], x=p["x"], y=p["y"], z=p["z"], vx=p["vx"], vy=p["vy"], vz=p["vz"], r=p["r"], hash=p["hash"])
@@ -249,7 +250,15 @@ def execute(case, ctx):
                                         if (vx1, vy1, vz1) != (vx0, vy0, vz0):
                                             viol("boundary", "velocity changed under periodic boundaries without forces", "hash %d" % h, key="boundary:velocity")
                                             break
-                        elif boundary == "open" and exact:
+                        if boundary == "open":
+                            # independent of how the positions came about: after a step nothing outside the box (or flagged for removal) may remain
+                            for h, (x, y, z, vx, vy, vz) in after.items():
+                                if y != y and collision == "tree":
+                                    continue        # a merge in the collision search flags its victim; that removal is deferred to the next tree update by design
+                                if not (abs(x) <= L[0] / 2 and abs(y) <= L[1] / 2 and abs(z) <= L[2] / 2):
+                                    viol("boundary", "a particle outside the box (or flagged for removal) is still present after the step", "hash %d at (%r,%r,%r), box %s, N=%d" % (h, x, y, z, L, len(after)), key="boundary:open-left-behind")
+                                    break
+                        if boundary == "open" and exact and not viols:
                             expect = {}
                             for h, (x0, y0, z0, vx0, vy0, vz0) in before.items():
                                 px = (x0 + dt / 2. * vx0) + dt / 2. * vx0
